@@ -45,11 +45,11 @@ func init() {
 }
 
 type c14Case struct {
-	Kind string `json:"kind"` // roundtrip | text
-	Text string `json:"text,omitempty"`
-	Hex  string `json:"hex,omitempty"`
-	Why  string `json:"why,omitempty"` // for must-reject mutations
-	Must string `json:"must,omitempty"`
+	Kind  string         `json:"kind"` // roundtrip | text
+	Text  string         `json:"text,omitempty"`
+	Hex   string         `json:"hex,omitempty"`
+	Why   string         `json:"why,omitempty"` // for must-reject mutations
+	Must  string         `json:"must,omitempty"`
 	Entry map[string]any `json:"entry,omitempty"`
 }
 
